@@ -154,7 +154,7 @@ func New(op OpCode) Type {
 // srcAddr specifies the source address, or immediate value for instruction
 // encoded integers.
 func EncodeSrc(srcsel int, src uint64, srcAddr int) Type {
-	if srcAddr <= -(1<<SrcChanWidth) || srcAddr >= (1<<SrcChanWidth) {
+	if srcAddr < -(1<<(SrcChanWidth-1)) || srcAddr >= (1<<(SrcChanWidth-1)) {
 		panic("srcAddr out of range")
 	}
 	addr := uint64(srcAddr)
